@@ -1,12 +1,15 @@
 import Driver.Util
 import Driver.ProgJson
+import Driver.Processor
 import Heph.Model.Depth
 import Heph.Generated.Skeleton
 /-! C18 ops:
   `depth.expr`  {program export: tt, lang, decls, context} → {"r": {"decls": [exprDepth per top-level
                 declaration], "region": [regionDepth per declaration], "max": n}}
   `depth.bound` {maxDepth, d} → {"r": B Generated.skeleton maxDepth d}  (plus the constants)
-  `depth.erasure` {n0, n, maxComb, first: nat|null} → {"r": erasureTests …} -/
+  `depth.erasure` {n0, n, maxComb, first: nat|null} → {"r": erasureTests …}
+  `proc.*`      the ops of `Driver/Processor.lean` (ProgramProcessor and the loops of hephaestus.py) are
+                registered through this family: an op not handled here is passed on to it -/
 open Lean Heph Heph.Depth
 namespace Driver.Depth
 
@@ -39,6 +42,6 @@ def handle : Handler := fun op j =>
       let n ← getNat j "n"
       let w := powerWalk (List.range n)
       pure (res (ofNatListList w))
-  | _ => none
+  | _ => Driver.Processor.handle op j
 
 end Driver.Depth
